@@ -36,6 +36,22 @@ def ber_walk(data, depth=0):
     return None
 
 
+def top_level_tags(data):
+    """tags of the components directly inside the outermost TLV."""
+    i = 2 + ((data[1] & 0x7F) if data[1] >= 0x80 else 0)
+    out = []
+    while i + 2 <= len(data):
+        out.append(data[i])
+        ln = data[i + 1]
+        i += 2
+        if ln >= 0x80:
+            k = ln & 0x7F
+            ln = int.from_bytes(data[i:i + k], "big")
+            i += k
+        i += ln
+    return out
+
+
 def user_info_obj(d):
     """UserInformation holding an xDLMS APDU built from a C01 value description (or None)."""
     if d is None:
@@ -141,6 +157,44 @@ class C02(fw.Prop):
             line = (f"acse aare {d['ciph']} {d['res']} {d['du']} {d['diag']} {oh(title)} {oh(cert)} {on(d['mech'])} {oh(val)} "
                     f"{'none' if uib is None else fw.hx(uib)}")
             return fw.Case(line, impl, "prop", d, tags=("aare",))
+        if k == "aarq-extra":
+            # components the Lean specification does not describe (pass-through identifiers, implementation information):
+            # checked on the harness side only - well-formed BER, every component that was set is present under its tag
+            # exactly once, the value decodes back unchanged, and a re-used, modified object encodes like a fresh one
+            fields = {x: from_hex(v) for x, v in d["fields"].items()}
+
+            def impl():
+                from dlms_cosem.protocol import acse
+                ui, _ = user_info_obj(d["ui"])
+                base = dict(user_information=ui, system_title=from_hex(d["title"]), authentication=mech_enum(d["mech"]), ciphered=bool(d["ciph"]),
+                            authentication_value=from_hex(d["val"]))
+                a = acse.ApplicationAssociationRequest(**base, **fields)
+                bs = a.to_bytes()
+                w = ber_walk(bs)
+                if w:
+                    return "ok aarq-extra ber-nesting: " + w
+                tags = {"calling_ap_invocation_identifier": 0xA8, "calling_ae_invocation_identifier": 0xA9, "called_ap_title": 0xA2,
+                        "called_ae_qualifier": 0xA3, "called_ap_invocation_identifier": 0xA4, "called_ae_invocation_identifier": 0xA5,
+                        "implementation_information": 0xBD}
+                top = top_level_tags(bs)
+                for name, v in fields.items():
+                    if v is not None and top.count(tags[name]) != 1:
+                        return f"ok aarq-extra component-{name}-occurs-{top.count(tags[name])}-times " + fw.hx(bs)
+                b = acse.ApplicationAssociationRequest.from_bytes(bs)
+                for name, v in fields.items():
+                    got = getattr(b, name)
+                    if (None if got is None else bytes(got)) != v:
+                        return f"ok aarq-extra decoded-differs-{name}: {got!r}"
+                # re-used object: first serialised with other values
+                o = acse.ApplicationAssociationRequest(user_information=ui, system_title=b"OTHER123", authentication=mech_enum(d["omech"]),
+                                                       ciphered=not bool(d["ciph"]), authentication_value=from_hex(d["oval"]))
+                o.to_bytes()
+                for name, v in {**base, **fields}.items():
+                    setattr(o, name, v)
+                if bytes(o.to_bytes()) != bytes(bs):
+                    return "ok aarq-extra reused-object-differs-from-fresh " + fw.hx(o.to_bytes()) + " " + fw.hx(bs)
+                return "ok aarq-extra"
+            return fw.Case("echo aarq-extra", impl, "prop", d, tags=("aarq-extra",))
         if k in ("rlrq", "rlre"):
             def impl():
                 from dlms_cosem.protocol import acse
@@ -198,6 +252,16 @@ class C02(fw.Prop):
         for extra in list(range(20, 60)) + list(range(150, 190)) + [200, 230]:
             yield mk(dict(k="aarq", ciph=1, title=rb(8), cert=rb(min(extra, 64)), mech=5, val=rb(min(64, max(0, extra - 64))),
                           ui=gireq(max(0, min(120, extra - 128)) + 20)))
+        # pass-through components of the AARQ (user id = calling-AE-invocation-id, ...) one by one, in pairs and all together;
+        # each also produced from a re-used object
+        names = ["calling_ap_invocation_identifier", "calling_ae_invocation_identifier", "called_ap_title", "called_ae_qualifier",
+                 "called_ap_invocation_identifier", "called_ae_invocation_identifier", "implementation_information"]
+        sets = [[n] for n in names] + [[a, b] for a in names[:2] for b in names if a != b] + [names]
+        for fs in sets:
+            for m, val in ((None, None), (1, rb(8)), (5, rb(16))):
+                om, oval = rng.choice([(None, None), (1, rb(8)), (5, rb(16)), (2, rb(4))])
+                yield mk(dict(k="aarq-extra", ciph=rng.randint(0, 1), title=rng.choice([None, rb(8)]), mech=m, val=val, omech=om, oval=oval, ui=ireq(),
+                              fields={n: "0201" + "%02x" % rng.randrange(256) for n in fs}))
         # AARE
         from dlms_cosem import enumerations as en
         for res in (0, 1, 2):
